@@ -246,17 +246,18 @@ def handshake_accept_ref(oi: int, chi: int, xi: int, ki: int, v2: bool) -> bool:
 # ------------------------------------------------------------------ closing orders and the disconnect code
 
 ORDERS = ["client closes with 1000", "client closes with 1001", "client closes with 3000", "client closes without a code", "application closes (1000)",
-          "application closes (4001)", "both close at once", "connection lost (EOF)", "connection lost (reset)"]
+          "application closes (4001)", "both close at once", "connection lost (EOF)", "connection lost (reset)",
+          "application closes, its close frame is stuck in a slow write while the client's close arrives"]
 
 
 @harness(
     "C11",
-    dom={"order": (0, 8), "flavour": (0, 1), "carrier": (0, 1)},
+    dom={"order": (0, 9), "flavour": (0, 1), "carrier": (0, 1)},
     split={"order": "each"},
     witnesses=[{"order": 0, "flavour": 0, "carrier": 0}, {"order": 4, "flavour": 1, "carrier": 0}, {"order": 7, "flavour": 0, "carrier": 1}],
     budget=60,
     per_path=60,
-    bounds="9 closing orders (client first with 1000/1001/3000/no code, application first with 1000/4001, simultaneous, EOF, reset) x both worker flavours x carrier HTTP/1.1 | HTTP/2",
+    bounds="10 closing orders (client first with 1000/1001/3000/no code, application first with 1000/4001, simultaneous, EOF, reset, application close stuck in a slow write while the client's close arrives) x both worker flavours x carrier HTTP/1.1 | HTTP/2",
     encodes=["hypercorn/protocol/ws_stream.py::WSStream.handle", "hypercorn/protocol/ws_stream.py::WSStream._handle_events", "hypercorn/protocol/ws_stream.py::WSStream.app_send"],
     stubs=["tier B runtime", "independent wsproto client"],
 )
@@ -266,10 +267,10 @@ def ws_disconnect_code(order: int, flavour: int, carrier: int) -> bool:
     post: _
     """
     enter()
-    order = conc(order, 0, 8)
+    order = conc(order, 0, 9)
     carrier = conc(carrier, 0, 1)
     flavour = "asyncio" if conc(flavour, 0, 1) == 0 else "trio"
-    app_closes = order in (4, 5, 6)
+    app_closes = order in (4, 5, 6, 9)
     app_code = 4001 if order == 5 else 1000
     steps = ["recv", ("send", {"type": "websocket.accept"})]
     if app_closes:
@@ -328,6 +329,13 @@ def ws_disconnect_code(order: int, flavour: int, carrier: int) -> bool:
         frame = ws.send_close(1000)
         open_gates(conn, app, 3)
         to_server(frame)
+        want = 1000
+    elif order == 9:
+        frame = ws.send_close(1000)
+        conn.pause()  # the peer has stopped reading: the server's close frame write is suspended
+        open_gates(conn, app, 3)
+        to_server(frame)
+        conn.resume()
         want = 1000
     elif order == 7:
         conn.eof()
